@@ -727,6 +727,7 @@ def run_native(pid, n, scratch, tier, repo, seed):
         # model files are data: a source-only scratch copy (seedtest.sh) uses the bundled models of /repo
         env["SSW_REPO"] = repo if os.path.isdir(os.path.join(repo, "model")) and os.path.isdir(os.path.join(repo, "tests", "data")) else "/repo"
         env["TMPDIR"] = wd
+        env.update(n.get("env", {}))
         rc, so, se, _s, to = sh([exe] + [str(a) for a in args] + [str(seed)], timeout=n.get("timeout", 900), env=env)
         r["cmd"] = " ".join(cmd) + " && ./nat " + " ".join(str(a) for a in args)
         if to:
